@@ -15,7 +15,7 @@ def setup_symbolic(fresh=False):
     import importlib
     import sys
     from tlv.sx import shims
-    from tlv.models import dpkt_model
+    from tlv.models import dpkt_model, sched_model
     if fresh:
         for k in [k for k in sys.modules if k == "tlexport" or k.startswith("tlexport.")]:
             del sys.modules[k]
@@ -24,6 +24,7 @@ def setup_symbolic(fresh=False):
         m = importlib.import_module(name)
         shims.install(m)
         shims.install_addr_shims(m)
+        sched_model.install(m)
         mods[name] = m
     mods["tlexport.packet"].dpkt = dpkt_model.namespace()
     return mods
